@@ -4,6 +4,12 @@ _BASE_NOTE = ("Trusted: CrossHair's symbolic models of str/int/list and z3 (for 
               "bounds per condition as written to evidence (pre: lines). Nothing is claimed outside the bounds.")
 
 CLAIMS = {
+    "C14": {
+        "technique": "bounded symbolic execution (CrossHair/z3) over operation-sequence and predicate choice variables: clone / camel-case / visibility / extend applied repeatedly to the same source, checked by a closure + preservation + non-interference oracle",
+        "text": "2 source schemas x every sequence of 1..3 operations (6 extension documents, 8-bit visibility predicates) on the same source: result closed (every reachable type is the registered object), removed elements absent from registry and introspection, every non-targeted attribute preserved "
+                "(resolvers, default/type/subscription resolvers, python names, defaults, descriptions, deprecations), source unmodified, still closed, valid, prints the same.",
+        "note": _BASE_NOTE + " User-defined SchemaVisitors other than the shipped transforms are not covered.",
+    },
     "C12": {
         "technique": "bounded symbolic execution (CrossHair/z3): schema -> SDL -> schema round trips over generator and option choice variables, call-history sequences against a fresh-interpreter reference, symbolic description text through print_description; z3 regex equivalence for _INT_RE",
         "regex": True,
